@@ -191,7 +191,7 @@ impl Engine for C02 {
         }
         if stage != "reclaiming" {
             // the documented reference configuration itself died: not this property's business
-            return Verdict::Discard(format!("reference-run-died: {}", last_lines(tail, 1).chars().take(90).collect::<String>()));
+            return Verdict::Discard(format!("reference-run-died: {}", crash_kind(tail)));
         }
         Verdict::Violation {
             class: "crash".into(),
